@@ -133,11 +133,11 @@ func NewEngine(spec WorldSpec) *Engine {
 }
 
 // gatedFns are the functions with an activation epoch; the node dispatches a call to them only while they are active.
-var gatedFns = map[string]bool{vmcommon.BuiltInFunctionMultiESDTNFTTransfer: true, vmcommon.BuiltInFunctionESDTNFTAddURI: true, vmcommon.BuiltInFunctionESDTNFTUpdateAttributes: true}
+var gatedFns = map[string]bool{refBuiltInFunctionMultiESDTNFTTransfer: true, refBuiltInFunctionESDTNFTAddURI: true, refBuiltInFunctionESDTNFTUpdateAttributes: true}
 
 var errInactive = errors.New("function not active in this epoch: the node does not dispatch the call")
 
-var transferFns = map[string]bool{vmcommon.BuiltInFunctionESDTTransfer: true, vmcommon.BuiltInFunctionESDTNFTTransfer: true, vmcommon.BuiltInFunctionMultiESDTNFTTransfer: true}
+var transferFns = map[string]bool{refBuiltInFunctionESDTTransfer: true, refBuiltInFunctionESDTNFTTransfer: true, refBuiltInFunctionMultiESDTNFTTransfer: true}
 
 func mismatchProps(fn string, mm Mismatch) []string {
 	switch mm.Class {
@@ -145,24 +145,24 @@ func mismatchProps(fn string, mm Mismatch) []string {
 		if transferFns[fn] {
 			return []string{"C01"}
 		}
-		if fn == vmcommon.BuiltInFunctionESDTNFTCreate {
+		if fn == refBuiltInFunctionESDTNFTCreate {
 			return []string{"C02", "C07"} // "returns and stores nonce = previous + 1": the entry has to sit under that nonce
 		}
 		return []string{"C02"}
 	case "frozen":
 		return []string{"C04", "C03"}
 	case "metadata":
-		if fn == vmcommon.BuiltInFunctionESDTNFTCreate {
+		if fn == refBuiltInFunctionESDTNFTCreate {
 			return []string{"C08", "C07"}
 		}
 		return []string{"C08"}
 	case "roles":
-		if fn == vmcommon.BuiltInFunctionESDTNFTCreateRoleTransfer {
+		if fn == refBuiltInFunctionESDTNFTCreateRoleTransfer {
 			return []string{"C03", "C07"}
 		}
 		return []string{"C03"}
 	case "counter":
-		if fn == vmcommon.BuiltInFunctionESDTNFTCreate || fn == vmcommon.BuiltInFunctionESDTNFTCreateRoleTransfer {
+		if fn == refBuiltInFunctionESDTNFTCreate || fn == refBuiltInFunctionESDTNFTCreateRoleTransfer {
 			return []string{"C07"}
 		}
 		return []string{"C07", "C03"}
@@ -190,13 +190,13 @@ func inFootprint(c *Call, v *Verdict, res *Result, account []byte, key string) b
 		return false
 	}
 	switch c.Fn {
-	case vmcommon.BuiltInFunctionChangeOwnerAddress:
+	case refBuiltInFunctionChangeOwnerAddress:
 		return key == "#owner"
-	case vmcommon.BuiltInFunctionClaimDeveloperRewards:
+	case refBuiltInFunctionClaimDeveloperRewards:
 		return key == "#reward" || key == "#balance"
-	case vmcommon.BuiltInFunctionSetUserName:
+	case refBuiltInFunctionSetUserName:
 		return key == "#username"
-	case vmcommon.BuiltInFunctionSaveKeyValue:
+	case refBuiltInFunctionSaveKeyValue:
 		for i := 0; i+1 < len(c.Args); i += 2 {
 			if key == string(c.Args[i]) {
 				return !strings.HasPrefix(key, refProtectedPrefix)
@@ -393,7 +393,7 @@ func (e *Engine) ExecCall(c *Call) *CallRecord {
 			paused := tokInfo != nil && prePaused[tokInfo.ID]
 			if (frozen || paused) && !isESDTSC(acct) {
 				rec.PreFrozenOrPaused = true
-				exempt := c.RetErr || (isESDTSC(c.Caller) && (c.Fn == vmcommon.BuiltInFunctionESDTFreeze || c.Fn == vmcommon.BuiltInFunctionESDTUnFreeze || c.Fn == vmcommon.BuiltInFunctionESDTWipe))
+				exempt := c.RetErr || (isESDTSC(c.Caller) && (c.Fn == refBuiltInFunctionESDTFreeze || c.Fn == refBuiltInFunctionESDTUnFreeze || c.Fn == refBuiltInFunctionESDTWipe))
 				if !exempt {
 					add(clause(pC04, c.Fn+"/changed-while-frozen-or-paused", "%s changed %s entry %q while frozen=%v paused=%v", c.String(), shortAddr(acct), sfx, frozen, paused))
 				}
@@ -418,12 +418,12 @@ func (e *Engine) ExecCall(c *Call) *CallRecord {
 				add(clause(pC03, c.Fn+"/pause-state-changed", "%s by %s changed the pause entry %q", c.String(), shortAddr(c.Caller), d.Key))
 			}
 		case strings.HasPrefix(d.Key, pfxRole):
-			if !isESDTSC(c.Caller) && !(c.Fn == vmcommon.BuiltInFunctionESDTNFTCreateRoleTransfer && c.MsgID != 0) {
+			if !isESDTSC(c.Caller) && !(c.Fn == refBuiltInFunctionESDTNFTCreateRoleTransfer && c.MsgID != 0) {
 				add(clause(pC03, c.Fn+"/roles-changed", "%s by %s changed the role list %q of %s", c.String(), shortAddr(c.Caller), d.Key, shortAddr(acct)))
 			}
 		case strings.HasPrefix(d.Key, pfxNonce):
-			okCreate := c.Fn == vmcommon.BuiltInFunctionESDTNFTCreate && bytes.Equal(acct, c.Caller)
-			if !okCreate && !isESDTSC(c.Caller) && !(c.Fn == vmcommon.BuiltInFunctionESDTNFTCreateRoleTransfer && c.MsgID != 0) {
+			okCreate := c.Fn == refBuiltInFunctionESDTNFTCreate && bytes.Equal(acct, c.Caller)
+			if !okCreate && !isESDTSC(c.Caller) && !(c.Fn == refBuiltInFunctionESDTNFTCreateRoleTransfer && c.MsgID != 0) {
 				add(clause([]string{"C03", "C07"}, c.Fn+"/counter-changed", "%s by %s changed the nonce counter %q of %s", c.String(), shortAddr(c.Caller), d.Key, shortAddr(acct)))
 			}
 		}
@@ -516,16 +516,16 @@ func attachedCallCheck(m *Model, c *Call, res *Result) []Clause {
 	var dest []byte
 	idx := -1
 	switch c.Fn {
-	case vmcommon.BuiltInFunctionESDTTransfer:
+	case refBuiltInFunctionESDTTransfer:
 		dest, idx = c.Rcv, 2
-	case vmcommon.BuiltInFunctionESDTNFTTransfer:
+	case refBuiltInFunctionESDTNFTTransfer:
 		idx = 4
 		if bytes.Equal(c.Caller, c.Rcv) {
 			dest = args[3]
 		} else {
 			dest = c.Rcv
 		}
-	case vmcommon.BuiltInFunctionMultiESDTNFTTransfer:
+	case refBuiltInFunctionMultiESDTNFTTransfer:
 		if bytes.Equal(c.Caller, c.Rcv) {
 			dest, idx = args[0], int(3*low64(args[1])+2)
 		} else {
@@ -552,11 +552,11 @@ func attachedFnOutsideDomain(c *Call) bool {
 	args := args2bytes(c.Args)
 	idx := -1
 	switch c.Fn {
-	case vmcommon.BuiltInFunctionESDTTransfer:
+	case refBuiltInFunctionESDTTransfer:
 		idx = 2
-	case vmcommon.BuiltInFunctionESDTNFTTransfer:
+	case refBuiltInFunctionESDTNFTTransfer:
 		idx = 4
-	case vmcommon.BuiltInFunctionMultiESDTNFTTransfer:
+	case refBuiltInFunctionMultiESDTNFTTransfer:
 		if bytes.Equal(c.Caller, c.Rcv) {
 			if len(args) >= 2 {
 				idx = int(3*low64(args[1]) + 2)
@@ -577,11 +577,11 @@ func creditExempt(c *Call, v *Verdict) bool {
 	}
 	args := args2bytes(c.Args)
 	switch c.Fn {
-	case vmcommon.BuiltInFunctionESDTTransfer:
+	case refBuiltInFunctionESDTTransfer:
 		return len(args) > 2
-	case vmcommon.BuiltInFunctionESDTNFTTransfer:
+	case refBuiltInFunctionESDTNFTTransfer:
 		return len(args) > 4
-	case vmcommon.BuiltInFunctionMultiESDTNFTTransfer:
+	case refBuiltInFunctionMultiESDTNFTTransfer:
 		if bytes.Equal(c.Caller, c.Rcv) {
 			return len(args) >= 2 && uint64(len(args)) > 3*low64(args[1])+2
 		}
@@ -641,18 +641,18 @@ func (e *Engine) parserAgreement(c *Call, v *Verdict, parseArgs [][]byte) []Clau
 		}
 	}
 	switch c.Fn {
-	case vmcommon.BuiltInFunctionESDTTransfer:
+	case refBuiltInFunctionESDTTransfer:
 		items = []Item{{Token: args[0], Qty: bigOf(args[1])}}
 		wantRcv = c.Rcv
 		tail(2)
-	case vmcommon.BuiltInFunctionESDTNFTTransfer:
+	case refBuiltInFunctionESDTNFTTransfer:
 		if bytes.Equal(c.Caller, c.Rcv) {
 			items, wantRcv = v.msgItems, args[3]
 		} else if msg := e.M.msg(c.MsgID); msg != nil {
 			items, wantRcv = msg.Items, c.Rcv
 		}
 		tail(4)
-	case vmcommon.BuiltInFunctionMultiESDTNFTTransfer:
+	case refBuiltInFunctionMultiESDTNFTTransfer:
 		if bytes.Equal(c.Caller, c.Rcv) {
 			items, wantRcv = v.msgItems, args[0]
 			tail(2 + 3*len(items))
@@ -764,9 +764,9 @@ func (e *Engine) afterFailedDelivery(c *Call, rec *CallRecord) {
 	// transfer arguments without the attached call, plus one trailing non-empty argument (the return code)
 	var args [][]byte
 	switch msg.Fn {
-	case vmcommon.BuiltInFunctionESDTTransfer:
+	case refBuiltInFunctionESDTTransfer:
 		args = append(args, msg.Args[:2]...)
-	case vmcommon.BuiltInFunctionESDTNFTTransfer:
+	case refBuiltInFunctionESDTNFTTransfer:
 		args = append(args, msg.Args[:4]...)
 	default:
 		args = append(args, msg.Args[:1+3*len(msg.Items)]...)
@@ -828,7 +828,7 @@ func (e *Engine) Apply(op Op) *CallRecord {
 		if e.M.Issued[string(tok)] < cnt {
 			e.M.Issued[string(tok)] = cnt
 		}
-		e.M.newMsg(&Msg{Kind: "handover", Fn: vmcommon.BuiltInFunctionESDTNFTCreateRoleTransfer, Caller: cp(op.Call.Caller), Rcv: cp(op.Call.Rcv),
+		e.M.newMsg(&Msg{Kind: "handover", Fn: refBuiltInFunctionESDTNFTCreateRoleTransfer, Caller: cp(op.Call.Caller), Rcv: cp(op.Call.Rcv),
 			Args: args2bytes(op.Call.Args), Token: tok, Counter: cnt})
 	}
 	return nil
